@@ -21,6 +21,7 @@ type Failure struct {
 }
 
 type Rec struct {
+	Alias    map[string]string // oracle key -> key under the property being checked (shared scenarios)
 	OnlyProp string // see Fail
 	Prop      string
 	Tier      string
@@ -68,6 +69,9 @@ func (r *Rec) Case(sig string, nontrivial bool) {
 // Fail records an oracle failure. While OnlyProp is set (a shared scenario runs inside the check of one property), a
 // failure whose key belongs to ANOTHER property is left to that property's own check and only counted here.
 func (r *Rec) Fail(key, what string, replay []string) {
+	if a, ok := r.Alias[key]; ok {
+		key = a // the same oracle under the key of the property whose check runs the shared scenario
+	}
 	if r.OnlyProp != "" && len(key) > 4 && key[0] == 'C' && key[3] == '/' && key[:3] != r.OnlyProp {
 		r.Count("other-property-oracle:" + key[:3])
 		return
